@@ -233,6 +233,10 @@ def gen_overlap(rng, seed, tier):
         sc["stall"] = rng.choice([0.3, 0.6])
     if rng.random() < heavy:
         sc["clock_jumps"] = {str(rng.randint(1, 40)): rng.choice([2.0, -2.0, 2.0])}
+    if rng.random() < 0.25:
+        # fault 'eager poller' (see simrun.Runner._eager)
+        sc["eager"] = [rng.choice([0.5, 0.01]),
+                       rng.choice([0, 1, 2, 3, 4, 6, 8, 10, 12, 15, 20, 25, 30, 40, 60])]
     case["sched"] = sc
     return case
 
@@ -318,9 +322,19 @@ def evaluate_overlap(case, r):
             if h[0] == "st" and (h[3] or "").startswith(label):
                 return h[4]
         return c["before"][0]
+    grace_fault = (r.det.n_fault_clock_jump > 0 or bool((case.get("sched") or {}).get("oversleep"))
+                   or any(len(d) > 2 and d[2] and d[2] >= 0.9 for d in r.det.decisions))
     for c in cmds:
         if c["name"] not in ("initialize", "cleanup"):
             continue
+        ck = r.cmd_clock.get(c["index"])
+        if grace_fault and ck and ck[1] is not None and ck[1] - ck[0] >= 0.9985:
+            # an injected stall / clock fault of about a second let the 1 s
+            # grace period inside cleanup() expire: the abandoned run thread
+            # may still deliver its last notifications afterwards (by design,
+            # see ASSUMPTIONS); nothing after it is judged
+            r.count("unjudged:grace-expired-in-initialize-or-cleanup")
+            return []
         label = "%s#%d" % (c["name"], c["index"])
         own_changes = any(h[0] == "st" and (h[3] or "").startswith(label)
                           for h in H[c["invoke_pos"]:c.get("return_pos", len(H))])
@@ -405,9 +419,11 @@ def evaluate_overlap(case, r):
                 break
         if c["name"] == "stop":
             ck = r.cmd_clock.get(c["index"])
-            if ck and ck[1] is not None and ck[1] - ck[0] >= 0.999:
+            if ck and ck[1] is not None and ck[1] - ck[0] >= 0.9985:
                 # the 1 s grace period of stop() expired: by design the
-                # command returns before the run thread reacted
+                # command returns before the run thread reacted (the loop
+                # compares truncated milliseconds, so it can end after
+                # 0.999 s minus rounding)
                 r.count("grace-period-expired")
                 continue
             # after an accepted stop nothing executes until the next accepted
